@@ -159,9 +159,10 @@ impl Cfg {
         })
         .map_err(panic_msg)
     }
-    /// The real `build()`, with unwinds caught.
+    /// The real `build()`, with unwinds caught. The call is registered with the hang monitor while it runs.
     pub fn build(&self, tcs: &[String]) -> Result<String, String> {
         let c = *self;
+        let _g = inflight::enter(tcs, self);
         std::panic::catch_unwind(move || c.builder(tcs).build()).map_err(panic_msg)
     }
 }
@@ -194,3 +195,57 @@ pub fn lattice_all(base: u32, free: u32) -> Vec<Cfg> {
 }
 
 pub const ALL_BITS: u32 = (1 << NBITS) - 1;
+
+
+/// Builds in flight, one slot per worker thread: lets a monitor thread see a `build()` that does not return.
+pub mod inflight {
+    use super::Cfg;
+    use std::sync::atomic::{AtomicUsize, Ordering};
+    use std::sync::Mutex;
+    use std::time::Instant;
+
+    pub const SLOTS: usize = 512;
+    pub struct Entry {
+        pub since: Instant,
+        pub tcs: Vec<String>,
+        pub cfg: Cfg,
+    }
+    static NEXT: AtomicUsize = AtomicUsize::new(0);
+    thread_local! {
+        static SLOT: usize = NEXT.fetch_add(1, Ordering::Relaxed) % SLOTS;
+    }
+    fn table() -> &'static Vec<Mutex<Option<Entry>>> {
+        static T: std::sync::OnceLock<Vec<Mutex<Option<Entry>>>> = std::sync::OnceLock::new();
+        T.get_or_init(|| (0..SLOTS).map(|_| Mutex::new(None)).collect())
+    }
+    pub struct Guard(usize);
+    impl Drop for Guard {
+        fn drop(&mut self) {
+            if let Ok(mut g) = table()[self.0].lock() {
+                *g = None;
+            }
+        }
+    }
+    pub fn enter(tcs: &[String], cfg: &Cfg) -> Guard {
+        let i = SLOT.with(|s| *s);
+        if let Ok(mut g) = table()[i].lock() {
+            *g = Some(Entry { since: Instant::now(), tcs: tcs.to_vec(), cfg: *cfg });
+        }
+        Guard(i)
+    }
+    /// The oldest build in flight that has been running for more than `limit_s` seconds.
+    pub fn stuck(limit_s: u64) -> Option<(u64, Vec<String>, Cfg)> {
+        let mut worst: Option<(u64, Vec<String>, Cfg)> = None;
+        for m in table().iter() {
+            if let Ok(g) = m.lock() {
+                if let Some(e) = g.as_ref() {
+                    let age = e.since.elapsed().as_secs();
+                    if age >= limit_s && worst.as_ref().map_or(true, |w| age > w.0) {
+                        worst = Some((age, e.tcs.clone(), e.cfg));
+                    }
+                }
+            }
+        }
+        worst
+    }
+}
